@@ -53,12 +53,16 @@ COMPONENTS = {
 }
 PROBES = {"same_size_edit": 1, "racy_same_granule_edit": 1,
           "status_reported_change": 1, "roundtrip_checked": 1,
-          "kind_replacement": 1, "untracked_dir_collapsed": 1}
+          "kind_replacement": 1, "untracked_dir_collapsed": 1,
+          "directory_became_file": 1, "type_change_same_bytes": 1,
+          "reset_hard": 1, "add_all": 1}
 MIN_BUDGET = 200
 
 NAMES = [b"a.txt", b"b", b"dir/c.txt", b"dir/sub/d", b"x y.txt",
          b"caf\xc3\xa9.txt", b"bad\xff\xfename", b"quo\"te", b"tab\there",
-         b"exec.sh", b"empty", b"big.bin", b"dir2/e", b"ln"]
+         b"exec.sh", b"empty", b"big.bin", b"dir2/e", b"ln",
+         # the same name as a file in one tree and a directory in the other
+         b"dir", b"dir2", b"b/x", b"ln/under", b"dir/sub"]
 
 
 FAULT_COUNTERS = {
@@ -111,8 +115,9 @@ def gen_plan(seed, tier):
         edits.append({"op": rng.choice(
             ["mod_same", "mod_same", "mod_diff", "chmod", "delete",
              "untracked", "to_link", "to_file", "to_dir", "stage", "stage",
-             "unstage", "rm_cached", "commit", "switch", "touch",
-             "rewrite_same"]),
+             "unstage", "rm_cached", "commit", "switch", "switch", "touch",
+             "rewrite_same", "dir_to_file", "to_link_same", "to_file_same",
+             "reset_hard", "add_all"]),
             "i": rng.randrange(100), "c": rng.randrange(10**6)})
     mode = rng.choice(["normal", "normal", "skewed", "racy", "racy"])
     gran = rng.choice([1, 1000, 4 * 10**6, 10**9, 2 * 10**9])
@@ -124,11 +129,14 @@ def gen_plan(seed, tier):
 
 # ------------------------------------------------------------------ model
 SIZES = {}
+CONTENT = {}
 
 
 def blob_sha(data):
     h = hashlib.sha1(b"blob %d\0" % len(data) + data).hexdigest().encode()
     SIZES[h] = len(data)
+    if len(data) < 4096:
+        CONTENT[h] = data
     return h
 
 
@@ -438,6 +446,7 @@ def run_plan(plan):
                      f"staging the fresh checkout gives {tid} instead of {t1}")
             status_check("after add .", r)
             # ---- edits
+            stopped = [False]
             for ei, ed in enumerate(plan["edits"]):
                 op = ed["op"]
                 label = f"edit {ei} {op}"
@@ -527,6 +536,114 @@ def run_plan(plan):
                         write_file(q, b"inside %d\n" % ed["c"])
                         m.wd[q] = ("file", b"inside %d\n" % ed["c"], False)
                         m.why[p] = "became-directory"
+                elif op == "dir_to_file":
+                    dirs = sorted({q[:i] for q in present
+                                   for i in range(len(q)) if q[i:i + 1] == b"/"})
+                    d = pick(dirs)
+                    if d is None:
+                        continue
+                    stats["probe:kind_replacement"] = 1
+                    stats["probe:directory_became_file"] = 1
+                    import shutil
+                    shutil.rmtree(fspath(d))
+                    for q in [q for q in m.wd if q.startswith(d + b"/")]:
+                        del m.wd[q]
+                        m.why[q] = "deleted"
+                    write_file(d, b"was a directory %d\n" % ed["c"])
+                    m.wd[d] = ("file", b"was a directory %d\n" % ed["c"],
+                               False)
+                elif op in ("to_link_same", "to_file_same"):
+                    # the type changes, the bytes do not
+                    if op == "to_link_same":
+                        cands = [q for q in present if m.wd[q][0] == "file"
+                                 and 0 < len(m.wd[q][1]) < 200 and
+                                 b"\0" not in m.wd[q][1] and not m.wd[q][2]]
+                    else:
+                        cands = [q for q in present if m.wd[q][0] == "link"]
+                    p = pick(cands)
+                    if p is None:
+                        continue
+                    stats["probe:kind_replacement"] = 1
+                    stats["probe:type_change_same_bytes"] = 1
+                    data = m.wd[p][1]
+                    os.unlink(fspath(p))
+                    if op == "to_link_same":
+                        os.symlink(data, fspath(p))
+                        m.wd[p] = ("link", data)
+                        m.why[p] = "became-symlink"
+                    else:
+                        write_file(p, data)
+                        m.wd[p] = ("file", data, False)
+                        m.why[p] = "became-file"
+                elif op == "reset_hard":
+                    try:
+                        porcelain.reset(r, "hard")
+                    except Exception as e:  # noqa: BLE001
+                        # reset --hard over a dirty tree is not in the
+                        # property's list of operations: a refusal (files or
+                        # links in the way of HEAD's paths) proves nothing
+                        # either way; only a reset that *succeeds* is judged
+                        stats["reset_refused:" + type(e).__name__] = 1
+                        stopped[0] = True
+                        break
+                    stats["probe:reset_hard"] = 1
+                    # git: index and tracked files become HEAD; files that
+                    # were tracked (in the index) but are not in HEAD go;
+                    # untracked files stay
+                    for q in list(m.wd):
+                        if q in m.index and q not in m.head:
+                            del m.wd[q]
+                    for q in list(m.wd):
+                        # anything in the way of a HEAD path is replaced
+                        if any(h == q or h.startswith(q + b"/") or
+                               q.startswith(h + b"/") for h in m.head):
+                            del m.wd[q]
+                    skip = False
+                    for q, (mode, sha) in m.head.items():
+                        if sha not in CONTENT:
+                            skip = True
+                            break
+                        m.wd[q] = ("link", CONTENT[sha]) if mode == 0o120000 \
+                            else ("file", CONTENT[sha], mode == 0o100755)
+                    m.index = dict(m.head)
+                    if skip:
+                        # a large blob the model did not keep: resync from disk
+                        break
+                    for q, v in m.wd.items():
+                        if q not in m.head:
+                            continue
+                        fp = fspath(q)
+                        ok = R.lexists(fp) and (
+                            (v[0] == "link" and R.islink(fp) and
+                             os.fsencode(R.readlink(fp)) == v[1]) or
+                            (v[0] == "file" and not R.islink(fp) and
+                             _stat.S_ISREG(R.lstat(fp).st_mode) and
+                             util.read_real(fp) == v[1]))
+                        if not ok:
+                            viol("checkout-content/after-reset-hard",
+                                 f"{label}: {q!r} is not HEAD's "
+                                 f"{'symlink' if v[0] == 'link' else 'file'}")
+                            break
+                    tick("after_index_write")
+                elif op == "add_all":
+                    try:
+                        porcelain.add(r, [wt])
+                    except Exception as e:  # noqa: BLE001
+                        viol(f"add-raised/{type(e).__name__}",
+                             f"{label}: {e!r}")
+                        stopped[0] = True
+                        break
+                    stats["probe:add_all"] = 1
+                    m.index = {q: m.wd_entry(q) for q in m.wd}
+                    tick("after_index_write")
+                    try:
+                        tid = r.open_index().commit(r.object_store)
+                        if tid != m.tree_id_of_index(None):
+                            viol("roundtrip-tree-id/after-add-all",
+                                 f"{label}: index commits to {tid}")
+                    except Exception as e:  # noqa: BLE001
+                        viol(f"index-commit-raised/{type(e).__name__}",
+                             f"{label}: {e!r}")
                 elif op == "stage":
                     cands = sorted(set(present) | set(tracked))
                     p = pick(cands)
@@ -542,7 +659,8 @@ def run_plan(plan):
                     except Exception as e:  # noqa: BLE001
                         viol(f"stage-raised/{type(e).__name__}",
                              f"{label} {p!r}: {e!r}")
-                        continue
+                        stopped[0] = True
+                        break
                     cur = m.wd_entry(p)
                     if cur is None:
                         # WorkTree.stage of a path that is gone, or is now a
@@ -560,7 +678,8 @@ def run_plan(plan):
                     except Exception as e:  # noqa: BLE001
                         viol(f"unstage-raised/{type(e).__name__}",
                              f"{label} {p!r}: {e!r}")
-                        continue
+                        stopped[0] = True
+                        break
                     if p in m.head:
                         m.index[p] = m.head[p]
                     else:
@@ -588,7 +707,8 @@ def run_plan(plan):
                     except Exception as e:  # noqa: BLE001
                         viol(f"commit-raised/{type(e).__name__}",
                              f"{label}: {e!r}")
-                        continue
+                        stopped[0] = True
+                        break
                     m.head = dict(m.index)
                     tick("after_index_write")
                 elif op == "switch":
@@ -606,7 +726,8 @@ def run_plan(plan):
                     except Exception as e:  # noqa: BLE001
                         viol(f"switch-raised/{type(e).__name__}",
                              f"{label}: {e!r}")
-                        continue
+                        stopped[0] = True
+                        break
                     m.head = _entries(want)
                     m.index = dict(m.head)
                     m.wd = dict(want)
@@ -622,8 +743,8 @@ def run_plan(plan):
                     tick("after_index_write")
                 tick()
                 status_check(label, r)
-                if len(viols) > 2:
-                    break
+                if viols:
+                    break  # what follows a violation is a cascade
             r.close()
 
         def _entries(files):
